@@ -149,6 +149,12 @@ func c09leafVariants(tag string, base *Scn, mainFile string) []c09doc {
 				emit("neg/" + tag + path)
 				set(x)
 			}
+			// integers a float64 cannot hold (renderers and decoders that pass through a float lose them), and the largest one
+			set(9007199254740993)
+			emit("big53/" + tag + path)
+			set(9223372036854775807)
+			emit("maxint/" + tag + path)
+			set(x)
 		case float64:
 			if x != 0 {
 				set(0.0)
